@@ -5,7 +5,8 @@
 //!
 //! requests                                          answers
 //!   agg new <maxSamples> <maxFlows>                   ok
-//!   agg round <largestTtl> <T|L> <slots|->            brief dump: default flow + the round's flow
+//!   agg round <largestTtl> <T|L> <slots|->            brief dump: default flow + header of the round's flow
+//!                                                     (+ its hops when its round count is ≤ 2 or ≡ 0 mod 8)
 //!   agg dump                                          full dump: every flow, whole registry
 //!   agg get <flow> <hops|target|round|count>          the getter's value | panic
 //! `<slots>`: `;`-separated slots in the format of `strategy::show_slot`.
@@ -91,14 +92,17 @@ fn show_hop(full: bool, st: &State, flow: FlowId, h: &Hop) -> String {
     )
 }
 
-fn show_flow(full: bool, st: &State, id: FlowId) -> String {
+/// `mode`: 0 = header only, 1 = hops with abbreviated samples, 2 = everything
+fn show_flow(mode: u8, st: &State, id: FlowId) -> String {
     let hops = st.hops_for_flow(id);
     let tgt = st.target_hop(id);
     let mut parts = vec![format!(
         "flow {} rounds={} round={} target={}:{}:{} nhops={}",
         id.0, st.round_count(id), opt(st.round(id)), tgt.ttl(), tgt.total_sent(), tgt.total_recv(), hops.len()
     )];
-    parts.extend(hops.iter().map(|h| show_hop(full, st, id, h)));
+    if mode > 0 {
+        parts.extend(hops.iter().map(|h| show_hop(mode == 2, st, id, h)));
+    }
     parts.join(" ; ")
 }
 
@@ -112,9 +116,11 @@ fn show_reg_entry(e: &(trippy_core::verif::Flow, FlowId)) -> String {
 
 fn show_brief(st: &State) -> String {
     let rf = st.round_flow_id();
-    let mut parts = vec![show_flow(false, st, FlowId(0))];
+    let mut parts = vec![show_flow(1, st, FlowId(0))];
     if rf.0 != 0 {
-        parts.push(show_flow(false, st, rf));
+        // the round's own flow: hops only now and then (every flow is dumped in full by `dump`)
+        let n = st.round_count(rf);
+        parts.push(show_flow(u8::from(n <= 2 || n % 8 == 0), st, rf));
     }
     let reg = st.flows().iter().find(|e| e.1 == rf).map_or("-".to_string(), show_reg_entry);
     parts.push(format!("rfid={} nreg={} reg={reg}", rf.0, st.flows().len()));
@@ -122,9 +128,9 @@ fn show_brief(st: &State) -> String {
 }
 
 fn show_full(st: &State) -> String {
-    let mut parts = vec![show_flow(true, st, FlowId(0))];
+    let mut parts = vec![show_flow(2, st, FlowId(0))];
     for (_, id) in st.flows() {
-        parts.push(show_flow(true, st, *id));
+        parts.push(show_flow(2, st, *id));
     }
     parts.push(format!("rfid={}", st.round_flow_id().0));
     let reg = if st.flows().is_empty() { "-".to_string() } else { st.flows().iter().map(show_reg_entry).collect::<Vec<_>>().join(";") };
@@ -612,7 +618,7 @@ const TARGET: u64 = 7;
 
 fn gen_net(rng: &mut Rng, max_span: u8) -> Net {
     let first = *rng.pick(&[1u8, 1, 1, 1, 2, 4, 200, 254]);
-    let span = (*rng.pick(&[0u8, 1, 2, 3, 5, 8, 12, 30])).min(max_span);
+    let span = (*rng.pick(&[0u8, 1, 2, 2, 3, 3, 5, 8, 12, 30])).min(max_span);
     let dist = (u16::from(first) + u16::from(span)).min(254) as u8;
     let ecmp = *rng.pick(&[1u64, 1, 2, 3]);
     let addrs = (0..254u64).map(|t| (0..=rng.below(ecmp)).map(|k| 100 + t * 4 + k).collect()).collect();
@@ -695,7 +701,10 @@ fn net_round(net: &mut Net, rng: &mut Rng, round: usize) -> RoundRec {
                 let d = rtt(net, rng, round, ttl);
                 if is_target { target_ttl = Some(target_ttl.map_or(ttl, |t: u8| t.min(ttl))); }
                 max_recv = Some(max_recv.map_or(ttl, |m: u8| m.max(ttl)));
-                complete(net, rng, p, host, is_target, d, rng.chance(1, 200))
+                {
+                    let back = rng.chance(1, 200);
+                    complete(net, rng, p, host, is_target, d, back)
+                }
             };
         probes.push(s);
     }
@@ -740,14 +749,14 @@ fn history(run: &mut Run, rng: &mut Rng, rounds: usize, max_samples: usize, max_
         if drift && rng.chance(1, 10) {
             // growing / shrinking path
             let d = i32::from(net.dist) + *rng.pick(&[-2i32, -1, 1, 2, 3]);
-            net.dist = d.clamp(i32::from(net.first), 254) as u8;
+            net.dist = d.clamp(i32::from(net.first), (i32::from(net.first) + 2 * i32::from(max_span) + 4).min(254)) as u8;
         }
         if rng.chance(1, 200) { net.target_silent = !net.target_silent; }
         let rec = if rng.below(1000) < random_pm { random_round(&mut net, rng, i) } else { net_round(&mut net, rng, i) };
         let check = check_every == 1 || i % check_every == check_every - 1;
         s.round(run, rec, check);
         if s.dead { return; }
-        if i % dump_every == dump_every - 1 || (dump_every < 100 && rng.chance(1, 40)) { s.dump(run); }
+        if i % dump_every == dump_every - 1 || (dump_every < 100 && rng.chance(1, 100)) { s.dump(run); }
         if rng.chance(1, 50) {
             let f = rng.below(max_flows as u64 + 3);
             let what = *rng.pick(&["hops", "target", "round", "count"]);
@@ -810,7 +819,7 @@ pub fn run(rng: &mut Rng, thorough: bool, corpus: &[String]) -> Run {
     let mut run = Run::new();
     replay(&mut run, corpus);
     malformed(&mut run, rng);
-    let n = if thorough { 1500 } else { 120 };
+    let n = if thorough { 500 } else { 60 };
     for i in 0..n {
         let max_samples = *rng.pick(&[0usize, 1, 2, 256, 256, 10]);
         let max_flows = *rng.pick(&[1usize, 2, 3, 8, 64, 64, 0]);
